@@ -47,6 +47,11 @@ def _cmp_multi_index(a, b):
         else:
             # Both are Index, no decision, do not depend on count!
             pass
+    # No decision on the common prefix (zip truncates): sort shorter before longer,
+    # otherwise the ordering is not transitive
+    x, y = len(a._indices), len(b._indices)
+    if x != y:
+        return -1 if x < y else 1
     # Failed to make a decision, return 0 by default
     # (this does not mean equality, it could be e.g.
     # [i,0] vs [j,0] because the counts of i,j cannot be used)
